@@ -23,3 +23,11 @@ def run(ctx):
     rep.trusted_base = R.TRUSTED
     rep.assumptions = R.ASSUMPTIONS_C06
     return R.run_common(ctx, "C06", rep, ["theories/Properties/C06.vo"])
+
+
+def replay(ctx, payload):
+    rep = Report(ctx)
+    rep.rule = "replay of one recorded failing input"
+    rep.trusted_base = R.TRUSTED
+    rep.assumptions = R.ASSUMPTIONS_C06
+    return R.replay_common(ctx, "C06", rep, payload, ["theories/Properties/C06.vo"])
